@@ -46,6 +46,10 @@ Definition set_max (t : thread) (n : N) := mkThread (steps t) n (cancel t) (init
 Definition set_cancel (t : thread) (c : option reason) := mkThread (steps t) (maxSteps t) c (inited t) (onmax t).
 Definition set_onmax (t : thread) h := mkThread (steps t) (maxSteps t) (cancel t) (inited t) h.
 
+(* a client hook `func(t) { t.Cancel(r) }` as a handler *)
+Definition cancel_hook (r : reason) : option reason -> option reason :=
+  fun c => match c with None => Some r | Some x => Some x end.
+
 (* Cancel: compare-and-swap on nil -- the first reason wins *)
 Definition do_cancel (t : thread) (r : reason) : thread :=
   match cancel t with None => set_cancel t (Some r) | Some _ => t end.
